@@ -1,3 +1,108 @@
 import Ptk.Proto
--- stub: the C17 model driver has not been written yet
-def main : IO Unit := Ptk.Proto.run fun _ => "bad-op"
+import Ptk.Model.C17
+open Ptk Ptk.Py Ptk.Proto Ptk.C17
+
+/-! Line protocol of the C17 driver.
+
+  key press = integer: -1 accept (Enter), -2 abort (c-c), -3 CPR response, -4 c-j,
+  n ≥ 0 = `other n` (n < 0x110000: the character, else an editing key, see `Ed`).
+
+  stateful commands (reply = the observable state):
+    init | W n k1..kn | S | R n | F
+  one-shot:
+    E2E k  <events…>   events: w n k1..kn | s | r n | f
+      reply: results and the unconsumed keys
+-/
+
+def decKey (t : String) : Option Key := do
+  let i ← decInt t
+  if i = -1 then pure .accept
+  else if i = -2 then pure .abort
+  else if i = -3 then pure .cpr
+  else if i = -4 then pure .cj
+  else if i ≥ 0 then pure (.other i.toNat)
+  else none
+
+def encKey : Key → String
+  | .accept => "-1"
+  | .abort => "-2"
+  | .cpr => "-3"
+  | .cj => "-4"
+  | .other n => toString n
+
+def encKeys (l : List Key) : String := encList encKey l
+
+/-- take `n` keys from the token list -/
+def takeKeys : Nat → List String → Option (List Key × List String)
+  | 0, ts => some ([], ts)
+  | _ + 1, [] => none
+  | n + 1, t :: ts => do
+    let k ← decKey t
+    let (ks, rest) ← takeKeys n ts
+    pure (k :: ks, rest)
+
+def encRes (r : Res) : String :=
+  let e := Ed.render r.1
+  s!"{encKey r.2}:{encStr e.text}"
+
+def showSt (s : St) : String :=
+  let e := Ed.render s.kp.applied
+  let d := match s.kp.done with | none => "N" | some k => encKey k
+  let cur : String := if s.running then s!"{encStr e.text} {e.cur}" else "- -"
+  s!"run={encBool s.running} done={d} buf={cur} q={encKeys s.kp.queue} ta={encKeys s.typeahead} res={encList encRes s.results}"
+
+/-- `start`, and when the typeahead already contained an accepting key the `await f`
+    does not yield: the exit path runs before anything else can happen. -/
+def startEv (s : St) : St :=
+  if s.running then s else
+  let s1 := step s .start
+  if s1.kp.done.isSome then step s1 .finish else s1
+
+def stepLine (s : St) (toks : List String) : St × String :=
+  match toks with
+  | ["init"] => (St.init, showSt St.init)
+  | "W" :: n :: rest =>
+    match decNat n with
+    | some n =>
+      match takeKeys n rest with
+      | some (ks, []) => let s' := step s (.write ks); (s', showSt s')
+      | _ => (s, "bad-op")
+    | none => (s, "bad-op")
+  | ["S"] => let s' := startEv s; (s', showSt s')
+  | ["R", n] =>
+    match decNat n with
+    | some n => let s' := step s (.read n); (s', showSt s')
+    | none => (s, "bad-op")
+  | ["F"] => let s' := step s .finish; (s', showSt s')
+  | "E2E" :: k :: evs =>
+    match decNat k with
+    | none => (s, "bad-op")
+    | some k =>
+      let rec go (fuel : Nat) (st : St) (ts : List String) : Option St :=
+        match fuel with
+        | 0 => none
+        | fuel + 1 =>
+          match ts with
+          | [] => some st
+          | "s" :: ts => go fuel (if st.results.length < k then startEv st else st) ts
+          | "f" :: ts => go fuel (step st .finish) ts
+          | "r" :: n :: ts =>
+            match decNat n with
+            | some n => go fuel (step st (.read n)) ts
+            | none => none
+          | "w" :: n :: ts =>
+            match decNat n with
+            | some n =>
+              match takeKeys n ts with
+              | some (ks, rest) => go fuel (step st (.write ks)) rest
+              | none => none
+            | none => none
+          | _ => none
+      match go (evs.length + 1) St.init evs with
+      | some st =>
+        let left := st.typeahead ++ dropCpr st.kp.queue ++ dropCpr st.pipe
+        (s, s!"run={encBool st.running} res={encList encRes st.results} left={encKeys left}")
+      | none => (s, "bad-op")
+  | _ => (s, "bad-op")
+
+def main : IO Unit := runS stepLine St.init
